@@ -2,6 +2,7 @@ package bgp
 
 import (
 	"fmt"
+	"sort"
 
 	"verif.local/simrt"
 )
@@ -67,7 +68,12 @@ type gen struct {
 	// model of what each peer currently announces: peer -> key -> tag (generator side only,
 	// used to make withdrawals meaningful; oracles never trust it)
 	announced []map[viewKey]uint32
+	lastAnn   []map[Prefix]AttrSpec // last eligible IPv4 announcement per peer and prefix (for "clone" steps)
 	connected []bool
+}
+
+func sortPrefixes(ps []Prefix) {
+	sort.Slice(ps, func(i, j int) bool { return ps[i].String() < ps[j].String() })
 }
 
 func pick[T any](r *simrt.Rand, xs []T) T { return xs[r.Intn(len(xs))] }
@@ -90,7 +96,7 @@ func weighted(r *simrt.Rand, w map[string]int, order []string) string {
 	return order[0]
 }
 
-var stepOrder = []string{"announce", "withdraw", "wait", "peer_close", "peer_notify", "peer_silent", "fail_write", "stall",
+var stepOrder = []string{"announce", "withdraw", "wait", "peer_close", "peer_notify", "peer_silent", "fail_write", "stall", "clone",
 	"import", "export", "dispose", "static_add", "static_del", "reconnect", "raw_garbage", "keepalive", "replace"}
 
 func u32p(v uint32) *uint32 { return &v }
@@ -235,8 +241,10 @@ func (g *gen) genTopology() {
 		pl.Peers = append(pl.Peers, pc)
 	}
 	g.announced = make([]map[viewKey]uint32, n)
+	g.lastAnn = make([]map[Prefix]AttrSpec, n)
 	for i := range g.announced {
 		g.announced[i] = map[viewKey]uint32{}
+		g.lastAnn[i] = map[Prefix]AttrSpec{}
 	}
 	g.connected = make([]bool, n)
 }
@@ -409,7 +417,69 @@ func (g *gen) stepAnnounce(pi int) {
 			id = st.PathIDs[i]
 		}
 		g.announced[pi][viewKey{p, id}] = st.Attr.Tag()
+		if !v6 && st.Ineligible == "" && len(g.lastAnn) > pi {
+			g.lastAnn[pi][p] = *st.Attr
+		}
 	}
+	g.add(st)
+}
+
+// stepClone lets peer pi announce a prefix with the attributes another neighbour of the same AS
+// announced for it, except for exactly one attribute (MED, a community, ORIGIN or LOCAL_PREF):
+// two paths for one prefix that differ only outside the AS path (the two share their tag).
+func (g *gen) stepClone(pi int) {
+	r := g.r
+	pc := g.plan.Peers[pi]
+	var cands []int
+	for pj, o := range g.plan.Peers {
+		if pj != pi && o.AS == pc.AS && len(g.lastAnn[pj]) > 0 {
+			cands = append(cands, pj)
+		}
+	}
+	if len(cands) == 0 || !pc.IPv4 || (g.avoidAPTrigger() && pc.AddPathTX > 0) {
+		// (add-path TX sessions stay receive-only unless the run explores known finding F-C08-1)
+		g.stepAnnounce(pi)
+		return
+	}
+	pj := pick(r, cands)
+	var pfxs []Prefix
+	for p := range g.lastAnn[pj] {
+		pfxs = append(pfxs, p)
+	}
+	sortPrefixes(pfxs)
+	pfx := pick(r, pfxs)
+	a := g.lastAnn[pj][pfx]
+	a.NextHop = 0x0a000000 | uint32(pc.Addr[3])
+	a.Communities = append([]uint32(nil), a.Communities...)
+	switch r.Intn(4) {
+	case 0:
+		m := uint32(7)
+		if a.MED != nil {
+			m = *a.MED + 1
+		}
+		a.MED = &m
+	case 1:
+		a.Communities = append(a.Communities, 65000<<16|uint32(200+r.Intn(5)))
+	case 2:
+		a.Origin = (a.Origin + 1) % 3
+	case 3:
+		if a.LocalPref != nil {
+			lp := *a.LocalPref + 5
+			a.LocalPref = &lp
+		} else {
+			m := uint32(3)
+			a.MED = &m
+		}
+	}
+	st := Step{GapUS: g.gap(), Kind: "announce", Peer: pi, Pfx: []Prefix{pfx}, Attr: &a, Label: "clone"}
+	if pc.AddPathRX {
+		st.PathIDs = []uint32{uint32(1 + r.Intn(3))}
+	}
+	id := uint32(0)
+	if len(st.PathIDs) > 0 {
+		id = st.PathIDs[0]
+	}
+	g.announced[pi][viewKey{pfx, id}] = a.Tag()
 	g.add(st)
 }
 
@@ -546,6 +616,8 @@ func (g *gen) workload() {
 			}
 		case "fail_write":
 			g.add(Step{GapUS: g.gap(), Kind: "fail_write", Peer: pi, N: 1 + r.Intn(2)})
+		case "clone":
+			g.stepClone(pi)
 		case "stall":
 			// the neighbour stops reading for a moment: the DUT's writes to it block in the middle of
 			// whatever it is sending while route changes from the other neighbours keep arriving
@@ -591,6 +663,7 @@ func (g *gen) workload() {
 func (g *gen) lost(pi int) {
 	g.connected[pi] = false
 	g.announced[pi] = map[viewKey]uint32{}
+	g.lastAnn[pi] = map[Prefix]AttrSpec{}
 	if g.r.Chance(g.prof.ReconnectProb) {
 		g.add(Step{GapUS: 300_000 + int64(g.r.Intn(3_000_000)), Kind: "connect", Peer: pi})
 		g.connected[pi] = true
@@ -635,7 +708,11 @@ func (g *gen) makeIneligible(pi int, st *Step) {
 	case "as_loop":
 		seg := a.ASPath[0]
 		asns := append([]uint32(nil), seg.ASNs[:len(seg.ASNs)-1]...)
-		asns = append(asns, dut.LocalAS, tag)
+		localAS := dut.LocalAS
+		if pc.LocalAS != 0 {
+			localAS = pc.LocalAS // the receiving session's own local AS
+		}
+		asns = append(asns, localAS, tag)
 		a.ASPath = []Segment{{Type: 2, ASNs: asns}}
 		st.Ineligible = "local ASN in AS_PATH"
 	case "originator":
